@@ -39,15 +39,16 @@ INSIDE, BELOW, ABOVE, DIRECT = 0, -1, 1, 2
 # scipy's default is the not-a-knot spline on (after extensions, dropped non-finite points)
 # strongly non-uniform meshes, whose constants are larger, most of all for s''.  K_ACC[k]
 # is the safety factor in front of the Hall-Meyer constant for the k-th derivative.
-# Calibration (all proposed fixes applied, thorough tier seed 0, 25 840 sequences, 1.9e5
-# judged in-range entries; C18.py summarize -> "acc_ratio_max_in_units_of_Hall_Meyer_bound"):
-# largest observed  error / (Hall-Meyer bound with the effective local step)  = 7.3 (k=0),
-# 15.1 (k=1), 37.4 (k=2); quick tier seeds 0-4: <= 11 / 8 / 3.  K_ACC leaves a factor > 5.
-# A wrong table row or a wrong mode is an O(1) error in the value (O(1/h^k) in the
-# derivatives), i.e. 1e2..1e9 times the bound (unchanged tree with a damaged table: 2e4,
-# 4e6, 3e9 Hall-Meyer units).
+# Calibration (all ten proposed fixes applied; thorough tier seeds 0 and 1, 26 200 sequences
+# and 5.7e5 judged in-range entries each; C18.py summarize ->
+# "acc_ratio_max_in_units_of_Hall_Meyer_bound"): largest observed
+#   error / (Hall-Meyer bound with the effective local step)
+# = 13.9 (k=0), 20.3 (k=1), 100.7 (k=2); quick tier seeds 0-4: <= 11 / 8 / 3.
+# K_ACC leaves a factor >= 7.  A wrong table row or a wrong mode is an O(1) error in the
+# value (O(1/h^k) in the derivatives), i.e. far beyond the bound (unchanged tree, tables
+# damaged by the arange defects: 2e4 / 1e4 / 2e4 .. 3e9 Hall-Meyer units).
 HM = (5.0 / 384.0, 1.0 / 24.0, 3.0 / 8.0)
-K_ACC = (60.0, 100.0, 250.0)
+K_ACC = (100.0, 200.0, 1000.0)
 # influence of a long interval j on the error in interval i decays like RHO^|i-j|
 # (the exact decay rate of cubic-spline fundamental functions is 2-sqrt(3)=0.268; 0.5 is
 # deliberately pessimistic)
